@@ -26,6 +26,7 @@ structure InRef where
   passive : Bool := false
   unchecked : Bool := false
   boundary : Bool := false      -- bound directly to a parameter of the enclosing nested graph
+  rankIdx : Option Nat := none  -- the node of the consumer's own graph this input ranks after (wiring only)
 deriving Repr
 
 inductive SOp where
